@@ -172,11 +172,11 @@ func runConcurrent(w *BWorld, ops []BOp, target string, env *bEnv) (*sourcebundl
 			var ds sourcebundle.Diagnostics
 			switch op.Kind {
 			case "ar":
-				ds = b.AddRemoteSource(ctx, w.remote(op.Pkg, op.Sub), env.finders[op.Finder])
+				ds = b.AddRemoteSource(ctx, w.remoteAs(op.Pkg, op.Sub, op.Canon), env.finders[op.Finder])
 			case "ag":
 				ds = b.AddRegistrySource(ctx, mustRegistry(op.Pkg, op.Sub), allowedSet(op.Allowed), env.finders[op.Finder])
 			case "af":
-				ds = b.AddFinalRegistrySource(ctx, mustRegistry(op.Pkg, op.Sub).Versioned(versions.MustParseVersion(op.Allowed)), env.finders[op.Finder])
+				ds = b.AddFinalRegistrySource(ctx, finalOf(op), env.finders[op.Finder])
 			}
 			if ds.HasErrors() {
 				mu.Lock()
@@ -195,7 +195,7 @@ func runConcurrent(w *BWorld, ops []BOp, target string, env *bEnv) (*sourcebundl
 
 func init() {
 	lanes["builder-order"] = func(cfg *Config, rep *Report) {
-		rep.Rule = "error-free scripted worlds with 2..5 Add calls: every permutation of the calls (exhaustive up to 4, 12 samples beyond) and one concurrent run (all Add calls at once on one builder, yielding callbacks); fingerprint = manifest bytes + ChecksumV1 + recursive directory listing + the answers of all registry / remote lookups relative to the target; the first build's directory is opened five more times and every opening must give the same lookup answers; a fixed corpus of worlds in which two versions differing in build metadata only are both resolved; non-trivial = at least two distinct Add calls; distinct by (world, permutation)"
+		rep.Rule = "error-free scripted worlds with 2..5 Add calls: every permutation of the calls (exhaustive up to 4, 12 samples beyond) and one concurrent run (all Add calls at once on one builder, yielding callbacks); fingerprint = manifest bytes + ChecksumV1 + recursive directory listing + the answers of all registry / remote lookups relative to the target; the first build's directory is opened five more times and every opening must give the same lookup answers; a fixed corpus of worlds in which two versions differing in build metadata only are both resolved, one package version is requested with several sub-paths, versions with upper-case identifiers are pinned from text, and a package is added in two spellings of its URL; the first build's manifest has no two rows with the same source and fetches every package once; non-trivial = at least two distinct Add calls; distinct by (world, permutation)"
 		r := NewRng(cfg.Seed)
 		var reqs, impl []string
 		var human []interface{}
@@ -222,12 +222,24 @@ func init() {
 					break
 				}
 				fp := fingerprint(target, run.bundle, w)
+				if pi == 0 {
+					// every package is fetched once, in whatever spellings its address reaches the builder (C14)
+					for _, p := range checkTrace(env.log, true) {
+						if strings.HasSuffix(p, " times") {
+							rep.AddOracle(OracleFailure{Property: "C14", Lane: "builder-order", What: p, Input: c})
+						}
+					}
+				}
 				reqs = append(reqs, "builder "+w.Encode()+" "+encOps(w, pops))
 				impl = append(impl, run.canon(w))
 				human = append(human, map[string]interface{}{"world": w, "ops": pops})
 				rep.Case(fmt.Sprintf("%p|%v", c, perm), true, map[string]interface{}{"ops": pops, "perm": perm})
 				if pi == 0 {
 					base = fp
+					// no two manifest rows with the same source (seed C13-h: one address, two identities)
+					for _, d := range manifestDuplicates(target) {
+						rep.AddOracle(OracleFailure{Property: "C13", Lane: "builder-order", What: d, Input: c, ReqIdx: len(reqs)})
+					}
 					// the same directory opened five more times: every opening gives the same lookup answers
 					// as the bundle Close returned (seed C13-g: the winner among entries sharing a table key
 					// decided by map iteration order)
@@ -338,7 +350,12 @@ func init() {
 				rep.Count("corpus-worlds")
 			}
 		}
-		for tries := 0; done < cfg.N+nCorpus && tries < cfg.N*20; tries++ {
+		// (the three corpus worlds of seeds C11-h / C13-h / C17-h take the place of three generated worlds)
+		extra := nCorpus
+		if extra > 3 {
+			extra = 3
+		}
+		for tries := 0; done < cfg.N+extra && tries < cfg.N*20; tries++ {
 			w, ops := genBWorld(r, false)
 			if len(ops) < 2 {
 				continue
